@@ -275,9 +275,10 @@ func init() {
 			"after the terminal Scan()==false trailing fully-skipped blocks may have advanced the offset, so offset equalities are asserted only after a Scan that returned true (and for k=0); for the terminal position only the resume consequence is asserted",
 			"PreviousFullyScannedBytes for an object of block i is the start offset of block i-1 (0 for the first block), whether or not block i-1 delivered objects",
 		},
-		Cases:           c09Cases,
-		Exec:            c09Exec,
-		RaceIsViolation: true,
-		Exhaustive:      func(string) bool { return false },
+		Cases:            c09Cases,
+		Exec:             c09Exec,
+		CrashIsViolation: true,
+		RaceIsViolation:  true,
+		Exhaustive:       func(string) bool { return false },
 	})
 }
